@@ -34,7 +34,11 @@ def scratch(name):
         if rc != 0:
             raise RuntimeError(out)
     else:
-        sh("git checkout -q --detach $(git -C /repo rev-parse HEAD) && git checkout -q -- . && git clean -fdq", cwd=d)
+        sh("git reset -q --hard && git clean -fdq && git checkout -q --detach $(git -C /repo rev-parse HEAD)", cwd=d)
+    rc, head = sh("git rev-parse HEAD", cwd=d)
+    rc2, want = sh("git -C /repo rev-parse HEAD")
+    if head.strip() != want.strip():
+        raise RuntimeError("scratch worktree %s is at %s, /repo at %s" % (d, head.strip(), want.strip()))
     return d
 
 
@@ -112,11 +116,15 @@ def confirm(srcdirs):
 
 def evaluate(ids):
     override = None
-    if ids and ids[0].startswith("--checks="):
-        override = ids[0].split("=", 1)[1].split(",")
+    wtname = "eval"
+    while ids and ids[0].startswith("--"):
+        if ids[0].startswith("--checks="):
+            override = ids[0].split("=", 1)[1].split(",")
+        elif ids[0].startswith("--wt="):
+            wtname = ids[0].split("=", 1)[1]      # several evaluations may run in parallel, one worktree each
         ids = ids[1:]
     sd = os.path.join(VERIF, "seeded")
-    wt = scratch("eval")
+    wt = scratch(wtname)
     names = ids or sorted(os.listdir(sd))
     for name in names:
         d = os.path.join(sd, name)
